@@ -532,6 +532,9 @@ fn run_case(case: &Value) -> Value {
 }
 
 fn main() {
+    // panics (of the server under test, or budget stops) are results, reported on stdout; nothing is
+    // written to stderr, which the driver merges into the same pipe
+    std::panic::set_hook(Box::new(|_| {}));
     let stdin = std::io::stdin();
     let stdout = std::io::stdout();
     let mut w = std::io::BufWriter::new(stdout.lock());
